@@ -460,7 +460,7 @@ def ret_agg_blocks(fn, adt, variant):
     return out
 
 
-def leaf_origins(prog, fn, op, at=None, depth=0, _seen=None):
+def leaf_origins(prog, fn, op, at=None, depth=0, _seen=None, terminal_only=False):
     """Transitive data origins of an operand: expands arithmetic, casts and identity/conversion calls down to
     params / constants / other call results."""
     out = []
@@ -471,20 +471,25 @@ def leaf_origins(prog, fn, op, at=None, depth=0, _seen=None):
             continue
         seen.add(k)
         if o.kind == "bin":
-            out += leaf_origins(prog, fn, o.data["a"], o.block, depth + 1, seen)
-            out += leaf_origins(prog, fn, o.data["b"], o.block, depth + 1, seen)
+            out += leaf_origins(prog, fn, o.data["a"], o.block, depth + 1, seen, terminal_only)
+            out += leaf_origins(prog, fn, o.data["b"], o.block, depth + 1, seen, terminal_only)
         elif o.kind == "un":
-            out += leaf_origins(prog, fn, o.data["a"], o.block, depth + 1, seen)
-        elif o.kind == "agg":
+            out += leaf_origins(prog, fn, o.data["a"], o.block, depth + 1, seen, terminal_only)
+        elif o.kind == "agg" and not (terminal_only and o.data.get("agg") == "array"):
             for x in o.data["ops"]:
-                out += leaf_origins(prog, fn, x, o.block, depth + 1, seen)
+                out += leaf_origins(prog, fn, x, o.block, depth + 1, seen, terminal_only)
         elif o.kind == "call" and o.data.get("args") and (
                 (o.data.get("callee") or "") in CONV_CALLEES
-                or (o.data.get("callee") or "").startswith(("core::result::Result", "core::option::Option", "core::num::", "core::ops::arith::"))
+                or (o.data.get("callee") or "").startswith(("core::result::Result", "core::option::Option", "core::num::", "core::ops::arith::",
+                                                            "core::ops::index::", "core::slice::", "core::array::"))
                 or (o.data.get("callee") or "").startswith("abyssiniandb::filedb::inner::semtype::")):
-            out.append(o)
-            for x in o.data["args"]:
-                out += leaf_origins(prog, fn, x, o.block, depth + 1, seen)
+            if not terminal_only:
+                out.append(o)
+            args = o.data["args"]
+            if (o.data.get("callee") or "").startswith("core::ops::index::"):
+                args = args[:1]         # the indexed object, not the index
+            for x in args:
+                out += leaf_origins(prog, fn, x, o.block, depth + 1, seen, terminal_only)
         else:
             out.append(o)
     return out
